@@ -158,3 +158,66 @@ Definition line_fits (limit : option N) (h : header) : bool :=
 
 Definition hdr_generate (limit : option N) (hs : list header) : option bytes :=
   if forallb (line_fits limit) hs then Some (hdr_generate_nolimit hs) else None.
+
+(* ---- MessageHeaders::generate in full: rhymessage's fold_header ----
+   A line longer than limit - 2 is split at the last SP / HT whose index lies in [skip, limit - 2]
+   (skip = name length + 2 for the first piece, so the name and the ": " are never split; 1 for the
+   continuation pieces, whose first byte is the whitespace that was kept); the run of whitespace at
+   the split point is reduced to its last character, which starts the next piece. *)
+Inductive gen_result :=
+| GOk (b : bytes)
+| GCannotFold                 (* Error::HeaderLineCouldNotBeFolded *)
+| GLimitUnderflow.            (* `line_length_limit - 2` with a limit of 0 or 1 (known finding K4) *)
+
+Fixpoint find_split_aux (s : bytes) (idx skip : nat) (limit : N) (best : option nat) : option nat :=
+  match s with
+  | [] => best
+  | b :: t =>
+    let best' := if (Nat.leb skip idx && N.leb (N.of_nat idx) limit && is_wsp b)%bool then Some idx else best in
+    find_split_aux t (S idx) skip limit best'
+  end.
+
+Fixpoint count_wsp (s : bytes) : nat :=
+  match s with
+  | b :: t => if is_wsp b then S (count_wsp t) else 0
+  | [] => 0
+  end.
+
+(* fold_header(line, limit, skip): None = cannot be folded *)
+Definition fold_header (line : bytes) (limit : N) (skip : nat) : option (bytes * bytes) :=
+  if N.leb (N.of_nat (length line)) limit then Some (line, [])
+  else match find_split_aux line 0 skip limit None with
+       | None => None
+       | Some i => Some (firstn i line, skipn (i + (count_wsp (skipn i line) - 1)) line)
+       end.
+
+Fixpoint fold_loop (fuel : nat) (rest : bytes) (limit : N) (skip : nat) (acc : bytes) : option bytes :=
+  match rest with
+  | [] => Some acc
+  | _ =>
+    match fuel with
+    | O => None
+    | S f =>
+      match fold_header rest limit skip with
+      | None => None
+      | Some (part, rest') => fold_loop f rest' limit 1 (acc ++ part ++ CRLF)
+      end
+    end
+  end.
+
+Fixpoint gen_lines (limit : option N) (hs : list header) (acc : bytes) : gen_result :=
+  match hs with
+  | [] => GOk (acc ++ CRLF)
+  | h :: t =>
+    match limit with
+    | None => gen_lines limit t (acc ++ header_line h ++ CRLF)
+    | Some l =>
+      if N.ltb l 2 then GLimitUnderflow else
+      match fold_loop (S (length (header_line h))) (header_line h) (l - 2)%N (length (fst h) + 2) acc with
+      | None => GCannotFold
+      | Some acc' => gen_lines limit t acc'
+      end
+    end
+  end.
+
+Definition hdr_generate_full (limit : option N) (hs : list header) : gen_result := gen_lines limit hs [].
